@@ -99,6 +99,8 @@ func configs() []*cfg {
 		{Name: "retry-after-refused", From: "/", Base: "/base", Retry: "closed", Up: retryUp},
 		{Name: "keepalive-off", From: "/", Base: "/base/", Extra: "keepalive 0"},
 		{Name: "retry-after-refused-credentialed-upstream", From: "/", Base: "/base", Retry: "closed-creds", Up: retryUp[:1]},
+		// `timeout` bounds connecting to the upstream, not how long a response may stream
+		{Name: "short-connect-timeout", From: "/", Extra: "timeout 400ms"},
 	}
 	for i, c := range cs {
 		c.ID = i
@@ -472,6 +474,11 @@ func genCase(r *lib.Rng, n int, cfgs []*cfg, workers, port int) *kase {
 		hs = append(hs, hdr{"X-Forwarded-For", "10.1.2.3"}, hdr{"X-Forwarded-For", "10.4.5.6"})
 		k.feat("xff:2")
 	}
+	if len(k.Feat) > 0 && strings.HasPrefix(k.Feat[len(k.Feat)-1], "xff:") && r.Chance(1, 3) {
+		// the client declares the field hop-by-hop: its values end at this hop
+		toks = append(toks, []string{"X-Forwarded-For", "x-forwarded-for", "X-FORWARDED-FOR"}[r.Intn(3)])
+		k.feat("req:connection-named:x-forwarded-for")
+	}
 	hs = shuffle(r, hs)
 	// Connection lines are placed after shuffling so that the two-line form
 	// has a defined order
@@ -594,7 +601,7 @@ func genCase(r *lib.Rng, n int, cfgs []*cfg, workers, port int) *kase {
 		// a slow stream now and then: the reply is written in >= 10 pieces over
 		// >= 0.7 s, so the proxy's periodic flusher (250 ms) runs several times
 		// while the copy loop is writing
-		if n%250 == 7 && rp.Framing != "cl" && rp.BodyLen >= 4095 && rq.Method != "HEAD" {
+		if (n%250 == 7 || (k.cfg.Name == "short-connect-timeout" && n%4 == 3)) && rp.Framing != "cl" && rp.BodyLen >= 4095 && rq.Method != "HEAD" {
 			m := 10 + r.Intn(6)
 			rp.Writes = nil
 			for i := 0; i < m; i++ {
